@@ -378,6 +378,11 @@ func (s *socket) MaybeUpgrade(transport transports.Transport) {
 
 	// we force a polling cycle to ensure a fast upgrade
 	check = func() {
+		// the writable test and the Send are one step, as in flush: both answer
+		// the one pending poll
+		s.flushMu.Lock()
+		defer s.flushMu.Unlock()
+
 		if transports.POLLING == s.Transport().Name() && s.Transport().Writable() {
 			socket_log.Debug("writing a noop packet to polling for fast upgrade")
 			s.Transport().Send([]*packet.Packet{{Type: packet.NOOP}})
